@@ -67,7 +67,7 @@ func genHistoryCase(prop, tier string, r *rand.Rand) *Case {
 			n = 20 + r.IntN(40)
 		}
 	}
-	edits := []string{"node.add", "node.add", "node.delete", "node.delete", "node.setnodes", "fam.setnodes", "ind.setnodes", "doc.addnode", "doc.addindividual", "doc.addindividual.dup",
+	edits := []string{"node.add", "node.add", "node.delete", "node.delete", "node.setnodes", "fam.setnodes", "ind.setnodes", "doc.addnode", "doc.addnode.dup", "doc.addindividual", "doc.addindividual.dup",
 		"doc.addfamily", "doc.addfamilyhw", "doc.delete", "doc.setnodes", "fam.sethusband", "fam.setwife", "fam.sethusband.nil",
 		"fam.setwife.nil", "fam.sethusbandptr", "fam.setwifeptr", "fam.addchild", "ind.addname", "ind.addbirth", "ind.adddeath", "ind.setsex"}
 	reads := []string{"read.nodeswithtag", "read.families", "read.individual", "read.family", "read.pointer", "read.all"}
@@ -416,6 +416,14 @@ func applyEdit(ss *session, op HistOp) (applied bool) {
 	case "doc.addnode":
 		ss.counter++
 		doc.AddNode(gedcom.NewNode(gedcom.TagFromString(pick2s(op.A, "NOTE", "SOUR", "SUBM")), op.Str2, fmt.Sprintf("R%d", ss.counter)))
+	case "doc.addnode.dup":
+		// a record of another kind that takes the pointer of an individual
+		// (the last record with a pointer answers for it)
+		i := nthIndividual(doc, op.A)
+		if i == nil {
+			return false
+		}
+		doc.AddNode(gedcom.NewNode(gedcom.TagFromString(pick2s(op.B, "NOTE", "SOUR", "SUBM")), op.Str2, i.Pointer()))
 	case "doc.addindividual":
 		ss.counter++
 		doc.AddIndividual(fmt.Sprintf("N%d", ss.counter), gedcom.NewNode(gedcom.TagName, "New /Person/", ""))
